@@ -24,6 +24,7 @@ import (
 	"gopkg.in/yaml.v3"
 
 	"rcproxy/core/pkg/logging"
+	"rcproxy/core/pkg/verifhook"
 )
 
 type AuthIp struct {
@@ -83,6 +84,7 @@ func (a *AuthIp) watchYml() error {
 		for {
 			select {
 			case ev := <-watch.Events:
+				verifhook.Event("authip.event", ev.Name)
 				if ev.Name == a.name {
 					switch {
 					case ev.Op&fsnotify.Write == fsnotify.Write:
